@@ -16,9 +16,9 @@ import (
 
 var c06Tokens = []string{"x", "$", "$$", "$A", "${X}", "$(c)", "$1", "a$b", "$a", "$merge:x", "$replace:x", `$"{a}"`, `$"`,
 	"$required", "$delete", "$replace", "$match", "$value", "$invert", "$output", "$env:HOME", "$repeat", "$encode",
-	"$decode", "$parent", "$merge"}
+	"$decode", "$parent", "$merge", `$"x`}
 
-var c06Plain = []string{"x", "$", "$A", "${X}", "$(c)", "$1", "a$b"}
+var c06Plain = []string{"x", "$", "$A", "${X}", "$(c)", "$1", "a$b", `$"x`, `$"{a}`, "$_a", "$-x"}
 
 var c06Small = []string{"x", "$", "$$", "$a", "$merge:x", `$"{a}"`, "$required", "$delete", "$replace", "$match", "$output", "$repeat", "$env:HOME"}
 
@@ -39,7 +39,7 @@ func buildC06(tier string) *core.Plan {
 	if tier == "thorough" {
 		nPlain, nFull, nSmall = 5, 3, 4
 	}
-	plainA := gen.Alphabet{Scalars: strScalars(c06Plain, nil, 1, true, 1.5), Keys: []string{"x", "$A", "a$b", "${X}"}, MaxList: 3, MaxMap: 3}
+	plainA := gen.Alphabet{Scalars: strScalars(c06Plain, nil, 1, true, 1.5), Keys: []string{"x", "$A", "a$b", "${X}", `$"x`}, MaxList: 3, MaxMap: 3}
 	fullA := gen.Alphabet{Scalars: strScalars(c06Tokens, nil, 1, true), Keys: c06Tokens, MaxList: 3, MaxMap: 2}
 	smallA := gen.Alphabet{Scalars: strScalars(c06Small, nil, 1), Keys: c06Small[:9], MaxList: 3, MaxMap: 3}
 
